@@ -117,6 +117,15 @@ def _has_hole(args):
     return any((a == -1) if isinstance(a, int) else (_has_hole(a) if isinstance(a, tuple) else False) for a in args)
 
 
+def _backward(ctx, interp, op, args, name, meta):
+    """backward_var after an ACCEPTED forward pass: an exception (NumPy refusing an index / a shape the code formed) is a violation"""
+    try:
+        return interp.call(interp.getattr(op, "backward_var"), args, {})
+    except SymRaise as e:
+        ctx.oblige(f"{name}.backward_does_not_raise", False, raised=e.exc.cls_name(), **meta)
+        return None
+
+
 def perm_harness(mod, cls, rank, args, tag):
     """idx-mode contract of a rearrangement that permutes / shifts indices."""
 
@@ -171,7 +180,7 @@ def perm_harness(mod, cls, rank, args, tag):
         G = z3.Function("G", *([z3.IntSort()] * out.ndim + [z3.RealSort()])) if out.ndim else None
         g0 = z3.Real("g0")
         g = XArr(dom, out.shape, elem=(lambda i: G(*i)) if out.ndim else (lambda i: g0), origin="grad")
-        r = interp.call(interp.getattr(op, "backward_var"), [g, 0], {})
+        r = _backward(ctx, interp, op, [g, 0], name, meta)
         ok = isinstance(r, XArr)
         ctx.oblige(f"{name}.backward_returns_array", ok, **meta)
         if not ok:
@@ -218,7 +227,7 @@ def flat_harness(mod, cls, rank, args, tag, ones=(), kwargs=None):
         ctx.oblige(f"{name}.same_size", prod(out.shape) == prod(dims), **meta)
         Gf = z3.Function("Gf", z3.IntSort(), z3.RealSort())
         g = XArr(dom, out.shape, flat=lambda q: Gf(q), origin="grad")
-        r = interp.call(interp.getattr(op, "backward_var"), [g, 0], {})
+        r = _backward(ctx, interp, op, [g, 0], name, meta)
         ok = isinstance(r, XArr) and r.flat is not None
         ctx.oblige(f"{name}.backward_returns_array", ok, **meta)
         if not ok:
@@ -315,7 +324,7 @@ def join_harness(cls, rank, npieces, axis, index):
             ctx.oblige(f"C03.struct.{cls}[{tag}].forward_places_piece", out.flat(off + k) == xp.flat(k), **m3)
             Gf = z3.Function("Gf", z3.IntSort(), z3.RealSort())
             g = XArr(dom, out.shape, flat=lambda q: Gf(q), origin="grad")
-            r = interp.call(interp.getattr(op, "backward_var"), [g, index], {})
+            r = _backward(ctx, interp, op, [g, index], name, meta)
             ok = isinstance(r, XArr) and r.flat is not None
             ctx.oblige(f"{name}.backward_returns_array", ok, **meta)
             if ok:
@@ -344,7 +353,7 @@ def join_harness(cls, rank, npieces, axis, index):
             ctx.oblige(f"C03.struct.{cls}[{tag}].forward_places_piece", out.at(j) == xp.at(i), **m3)
             G = z3.Function("G", *([z3.IntSort()] * out.ndim + [z3.RealSort()]))
             g = XArr(dom, out.shape, elem=lambda q: G(*q), origin="grad")
-            r = interp.call(interp.getattr(op, "backward_var"), [g, index], {})
+            r = _backward(ctx, interp, op, [g, index], name, meta)
             if rank == 0 and not isinstance(r, XArr):
                 ctx.oblige(f"{name}.backward_returns_array", False, **meta)
                 return
